@@ -6,7 +6,7 @@ from .. import rewrite_rt as RT
 from . import c09
 
 CLAIM = dict(
-    text="Rewriting half of C08. Coq (Model/Rewrite.v: the rewriting parameters carry the id of the function the method is adapted FOR, the semantics has one dispatch table per id, all in the same globals): C08_recurse_is_call_partial -- for every call recurse(args) with positional and keyword-only arguments (argument expressions of unbounded nesting, themselves containing recurse / call_next), evaluating the rewritten call equals evaluating the arguments left to right and dispatching in the table of the function the method was adapted for, self prepended in methods, whatever other functions' tables are present; C08_own_table -- the rewritten tree names no other function's ___OVLD / ___MAP / ___CODE; C08_bare_name -- the bare name becomes that function; C08_refuted_poskw -- recurse(x=v) for a positional-or-keyword parameter fails with 'No method' while f(x=v) works (KF-09). What the model cannot carry and only the behaviour run covers: that every function of a copy / variant / mixin graph re-adapts every inherited method for itself (core.py register_signature / defns) and which id it gets -- that is the Graph component's theorem (C08_rec_target). Behaviour run on every check: random derivation graphs (variant, copy, Ovld(mixins=[...]), depth and fan-in > 1) with recursive methods (recurse, the function's own name, generator expressions) placed at arbitrary nodes, nested list / tuple inputs, every node called (children and parents alternately) and compared with a reference evaluator in which recursion re-enters the called node; the adapted methods' code is checked to name only the node's own ___MAP<id> / ___OVLD<id>, as the model's rewriting does.",
+    text="Rewriting half of C08. Coq (Model/Rewrite.v: the rewriting parameters carry the id of the function the method is adapted FOR, the semantics has one dispatch table per id, all in the same globals): C08_recurse_is_call_partial -- for every call recurse(args) with positional and keyword-only arguments (argument expressions of unbounded nesting, themselves containing recurse / call_next), evaluating the rewritten call equals evaluating the arguments left to right and dispatching in the table of the function the method was adapted for, self prepended in methods, whatever other functions' tables are present; C08_own_table -- the rewritten tree names no other function's ___OVLD / ___MAP / ___CODE; C08_bare_name -- the bare name becomes that function; C08_refuted_poskw -- recurse(x=v) for a positional-or-keyword parameter fails with 'No method' while f(x=v) works (KF-09). What the model cannot carry and only the behaviour run covers: that every function of a copy / variant / mixin graph re-adapts every inherited method for itself (core.py register_signature / defns) and which id it gets -- no theorem covers that step (the Graph model's observable is the table, not the adaptation); it is checked by the behaviour run alone. Behaviour run on every check: random derivation graphs (variant, copy, Ovld(mixins=[...]), depth and fan-in > 1) with recursive methods (recurse, the function's own name, generator expressions, map(recurse, ...), recurse(*[...])) placed at arbitrary nodes, half of the graphs with every function written `def walk` in one module, nested list / tuple inputs, every node called (children and parents alternately) and compared with a reference evaluator in which recursion re-enters the called node; the adapted methods' code is checked to name only the node's own ___MAP<id> / ___OVLD<id>, as the model's rewriting does.",
     note="Thin theorem content by design (the model mirrors a naming scheme; the substance is C09's simulation theorem specialised to one call site); most of the assurance is the behaviour run. Trusted: as for C09. Partial: KF-09, KF-27, KF-29.",
     technique="Coq proof (corollary of the C09 simulation; syntactic induction for own_table) + differential behaviour run over derivation graphs against a reference evaluator", design="6 C08")
 
